@@ -130,6 +130,9 @@ func (r *Result) Finish(verifDir string, known []KnownFinding, seed int64, wall 
 		obls = append(obls, o)
 	}
 	sort.SliceStable(obls, func(i, j int) bool { return obls[i].Key < obls[j].Key })
+	for i, o := range obls {
+		byKey[o.Key] = i
+	}
 
 	knownSet := map[string]KnownFinding{}
 	for _, k := range known {
@@ -186,6 +189,9 @@ func (r *Result) Finish(verifDir string, known []KnownFinding, seed int64, wall 
 	}
 	for _, o := range unres {
 		fmt.Printf("UNRESOLVED: property=%s %s at %s: %s\n", r.Property, o.Key, o.Pos, oneLine(o.Note))
+	}
+	if r.Tier != "thorough" {
+		stale = nil // findings of the wider thorough scope are not expected in the quick tier
 	}
 	for _, k := range stale {
 		fmt.Printf("NOTE: property=%s known finding no longer reported: %s\n", r.Property, k)
